@@ -98,7 +98,7 @@ h_call_suite(void)
         SET_SUITE_ID_FN(state, job);
         __CPROVER_assert(job->suite_id[0] == calc_cipher_tab_index(job) &&
                                  job->suite_id[1] == (unsigned) job->hash_alg,
-                         "[C06] suite id = (cipher table index, hash algorithm)");
+                         "[C06][C09] suite id = (cipher table index, hash algorithm): the burst API dispatches through the same table entries as the job API");
         if (which == 0)
                 (void) CALL_SUBMIT_CIPHER(state, job);
         else if (which == 1)
